@@ -94,6 +94,11 @@ def cases(rng, tier):
 		cs = rng.choice(('utf-8', 'iso8859-1'))
 		yield ('form', cs, tuple(pairs))
 		yield ('query', tuple(pairs))
+	# long sequences: pair counts around the round numbers a field limit or a block size would use
+	for npairs in (100, 255, 256, 257, 999, 1000, 1001, 1002, 1023, 1024, 1025, 2049) + ((4097, 10001) if tier == 'thorough' else ()):
+		pairs = tuple((u'k%d' % i, rng.choice((u'', u'v', u'a b', u'1+1', u'x=y&z'))) for i in range(npairs))
+		yield ('form', rng.choice(('utf-8', 'iso8859-1')), pairs)
+		yield ('query', pairs)
 	for _ in range(n):
 		k = rng.choice((1, 3, 6, 12))
 		data = bytes(rng.choice(b'ab=&&+%%2fF0\xc3\xa9\xff\x1f ') for _ in range(k))
